@@ -73,6 +73,16 @@ func c19pool(r *mon.Rand, kind refcose.Kind, n int) []c19input {
 	for _, v := range valid {
 		pool = append(pool, c19input{stage: "ok", b: v})
 	}
+	if kind == refcose.KSign1Tagged || kind == refcose.KSign1Untagged {
+		// COSE_Sign1 messages that look like hash envelopes - label 258 in the protected header - and break the
+		// envelope rules (governed labels in the unprotected bucket, odd digest length): plain Sign1 decoders
+		// take them today; whichever way a decoder decides, it decides before it touches the destination
+		for i, un := range []*Node{refcbor.NMap(refcbor.NInt(260), refcbor.NTstr("loc")), refcbor.NMap(refcbor.NInt(3), refcbor.NInt(0)), refcbor.NMap(refcbor.NInt(258), refcbor.NInt(-16)), refcbor.NMap(refcbor.NInt(259), refcbor.NTstr("a/b")), refcbor.NMap()} {
+			prot := refcbor.NMap(refcbor.NInt(1), refcbor.NInt(-7), refcbor.NInt(258), refcbor.NInt(mon.Pick(r, int64(-16), int64(-44), int64(99))), refcbor.NInt(4), refcbor.NBstr([]byte{byte(i)}))
+			wm := &gen.WSign1{L: gen.WLayer{ProtMap: prot, Unprot: un}, Payload: r.Bytes(mon.Pick(r, 32, 31, 64, 5)), Sig: r.Bytes(64), Tagged: kind == refcose.KSign1Tagged}
+			pool = append(pool, c19input{stage: "ok", b: wm.Bytes()})
+		}
+	}
 	for vi, v := range valid {
 		if vi >= n {
 			break
@@ -419,7 +429,7 @@ func c19edit(dst any, r *mon.Rand) string {
 		m[int64(99)] = "stale"
 	}
 	editHeaders := func(h *cose.Headers) string {
-		switch r.Intn(4) {
+		switch r.Intn(5) {
 		case 0:
 			editMap(h.Protected)
 			editMap(h.Unprotected)
@@ -431,6 +441,26 @@ func c19edit(dst any, r *mon.Rand) string {
 		case 2:
 			h.Protected, h.Unprotected = nil, nil
 			return "maps-nil"
+		case 3:
+			// values edited IN PLACE (the map entries stay, what they point to changes): a byte flipped in
+			// every byte string, an element replaced in every list, an entry added to every nested map
+			for _, m := range []map[any]any{h.Protected, h.Unprotected} {
+				for _, v := range m {
+					switch x := v.(type) {
+					case []byte:
+						if len(x) > 0 {
+							x[0] ^= 0xff
+						}
+					case []any:
+						if len(x) > 0 {
+							x[0] = "edited-in-place"
+						}
+					case map[any]any:
+						x["edited-in-place"] = true
+					}
+				}
+			}
+			return "nested-values-edited-in-place"
 		default:
 			// the application assembles something new in the same variable
 			if h.Protected == nil {
